@@ -94,11 +94,14 @@ fn fallback_timezone() -> Option<TimeZone> {
 
 impl Default for Cache {
     fn default() -> Cache {
+        // Read the clock before the environment (as `Cache::offset` does), so that
+        // `last_checked` is never later than the moment `TZ` was read.
+        let now = SystemTime::now();
         // default to UTC if no local timezone can be found
         let env_tz = env::var("TZ").ok();
         let env_ref = env_tz.as_deref();
         Cache {
-            last_checked: SystemTime::now(),
+            last_checked: now,
             source: Source::new(env_ref),
             zone: current_zone(env_ref),
         }
